@@ -6,7 +6,7 @@ package protocol
 // built with the real types.NewTx/MapTx.
 
 //verif:property C22
-//verif:bound transaction DAGs of 3 (quick) / 4 (thorough) transactions from a menu of shapes: chain, two-parent orphan with a child, diamond, double edge (both outputs of one parent spent by one child); every transaction has 1..2 inputs, 2 original outputs and (the first one) a retirement output
+//verif:bound transaction DAGs of 3 transactions (quick: every shape for processTransaction, one shape each for RemoveTransaction and ExpireOrphan; thorough: every shape for every operation, and 4 transactions for RemoveTransaction on the two-parent shape) from a menu of shapes: chain, two-parent orphan with a child, diamond, double edge (both outputs of one parent spent by one child); every transaction has 1..2 inputs, 2 original outputs and (the first one) a retirement output
 //verif:bound pre-state: every transaction independently absent / pooled / orphaned; every external input and the outputs of every absent transaction independently confirmed in the store or not; orphan expiration instants arbitrary below 2^32 s; every orphan indexed under each missing input and, arbitrarily, under inputs that the store has confirmed meanwhile; all such states that satisfy the invariant
 //verif:bound one operation: processTransaction of an absent transaction or of one that is currently an orphan (re-submission), RemoveTransaction of any transaction of the DAG or of an unknown hash, ExpireOrphan at an arbitrary instant
 //verif:assume the store is a consistent in-memory mock: GetTransactionsUtxo puts an unspent entry into the view exactly for the confirmed outputs; it does not change during an operation
@@ -16,8 +16,8 @@ package protocol
 //verif:outside Chain.ValidateTx (validation, dust filter, error cache), double spends between pooled transactions, the expiry goroutine and locking (operations run sequentially as under tp.mtx), vote/veto outputs
 //verif:override time.Now -> verifC22Now
 //verif:override (*github.com/bytom/bytom/event.Dispatcher).Post -> verifC22Post
-//verif:obligation fn=VerifC22Step args=0,3,0;1,3,0;2,3,0;3,3,0;1,3,1;2,3,2 validate=12
-//verif:obligation fn=VerifC22Step args=0,3,1;2,3,1;3,3,1;0,3,2;1,3,2;3,3,2;0,4,0;1,4,0;2,4,0;3,4,0;1,4,1;2,4,1;1,4,2;2,4,2 tier=thorough secs=1700
+//verif:obligation fn=VerifC22Step args=0,3,0;1,3,0;2,3,0;3,3,0;1,3,1;2,3,2 validate=12 secs=1700
+//verif:obligation fn=VerifC22Step args=0,3,1;2,3,1;3,3,1;0,3,2;1,3,2;3,3,2;1,4,1 tier=thorough secs=1700
 
 import (
 	"time"
